@@ -122,6 +122,24 @@ def apply_contract(I, contract, fn, args, kwargs, node):
                 v = call_spec(I, plain_function(when), env)
                 ctx.assume(I.truth(v))
             raise PyRaise(names[k], "raised by %s (contract)" % fn.qualname, site=node)
+    if contract.assume_native is not None:
+        # solver-friendly statement of the same postcondition (word equations instead of slicing);
+        # that it implies every clause of the contract is itself an obligation, checked at the first
+        # use in each task (kind "native-implies-clause")
+        result = contract.assume_native(S, Namespace(env), I)
+        key = ("native-checked", contract.target)
+        if key not in ctx.native_checked:
+            ctx.native_checked.add(key)
+            env2 = dict(env)
+            env2["old"] = Namespace(old)
+            env2["result"] = result
+            for cl in contract.ensures:
+                for extra, v in ctx.sub_explore(lambda: I.truth(eval_clause(I, contract, cl, env2))):
+                    from . import builtins_ as B
+                    ctx.oblige("%s/native-implies:%s" % (contract.target, cl.name), "native-implies-clause",
+                               B.z_implies(B.z_and(extra), v), tags=cl.props or contract.props)
+        ctx.assumed_contracts.add(contract.target)
+        return result
     if contract.havoc is not None:
         contract.havoc(S, Namespace(env))
     result = contract.result(S, Namespace(env)) if contract.result is not None else None
@@ -129,6 +147,8 @@ def apply_contract(I, contract, fn, args, kwargs, node):
     env2["old"] = Namespace(old)
     env2["result"] = result
     for cl in contract.ensures:
+        if "final" in [a.arg for a in clause_function(contract, cl).node.args.args]:
+            continue        # clause about the callee's internals: proved of the callee, not usable by callers
         v = eval_clause(I, contract, cl, env2)
         ctx.assume(I.truth(v) if not isinstance(I.truth(v), bool) else I.truth(v))
     ctx.assumed_contracts.add(contract.target)
